@@ -141,6 +141,9 @@ func (e *Ext) seqSlice(x *ssa.Slice) []Atom {
 				return e.seqFixedBuf(x, arr.Len())
 			}
 			if h, isK := constI(x.High); isK && h <= arr.Len() {
+				if h == 0 {
+					return nil // make([]byte, 0, N): an empty sequence extended by appends
+				}
 				return e.seqFixedBuf(x, h)
 			}
 		}
@@ -257,6 +260,9 @@ func (e *Ext) byteAtom(v ssa.Value, pos token.Pos) Atom {
 // seqMake: a make([]byte, N) filled by fixed-offset writes.
 func (e *Ext) seqMake(m *ssa.MakeSlice) []Atom {
 	n, isK := constI(m.Len)
+	if isK && n == 0 {
+		return nil // make([]byte, 0, cap): an empty sequence extended by appends
+	}
 	if !isK {
 		return []Atom{{Kind: "unknown", Expr: "make with variable length " + e.exprString(m.Len, 0), Pos: m.Pos()}}
 	}
@@ -268,8 +274,8 @@ func (e *Ext) seqFixedBuf(m ssa.Value, n int64) []Atom {
 	var atoms []Atom
 	var offs []int64
 	bad := ""
-	var visit func(buf ssa.Value, base int64)
-	visit = func(buf ssa.Value, base int64) {
+	var visit func(buf ssa.Value, base, win int64)
+	visit = func(buf ssa.Value, base, win int64) {
 		refs := buf.Referrers()
 		if refs == nil {
 			return
@@ -292,6 +298,10 @@ func (e *Ext) seqFixedBuf(m ssa.Value, n int64) []Atom {
 							if len(src) == 1 {
 								a := src[0]
 								a.Pos = y.Pos()
+								if a.Width == 0 && win > 0 {
+									// copy into a constant window buf[lo:hi]: at most hi-lo bytes land there
+									a.Width = int(win)
+								}
 								atoms = append(atoms, a)
 								offs = append(offs, base)
 							} else {
@@ -319,7 +329,15 @@ func (e *Ext) seqFixedBuf(m ssa.Value, n int64) []Atom {
 					}
 					lo = k
 				}
-				visit(y, base+lo)
+				w := int64(0)
+				if y.High != nil {
+					if h, ok := constI(y.High); ok && h >= lo {
+						w = h - lo
+					}
+				} else if win > 0 {
+					w = win - lo
+				}
+				visit(y, base+lo, w)
 			case *ssa.IndexAddr:
 				idx, ok := constI(y.Index)
 				if !ok {
@@ -340,7 +358,7 @@ func (e *Ext) seqFixedBuf(m ssa.Value, n int64) []Atom {
 			}
 		}
 	}
-	visit(m, 0)
+	visit(m, 0, n)
 	if bad != "" {
 		return []Atom{{Kind: "unknown", Expr: bad, Pos: m.Pos()}}
 	}
